@@ -167,7 +167,7 @@ func main() {
 
 	// ---- corpus (oracle only, outside the model): a second "genesis" block
 	// (empty previous hash, height 0) delivered to a running chain used to
-	// dereference a nil parent in connectBestChain (fixed: ddcbbcb5)
+	// dereference a nil parent in connectBestChain (fixed: 37c13230)
 	if p, et, changed, err := chaincase.SecondGenesis(); err != nil {
 		st.Fail("C12:harness", "second-genesis case could not be executed: "+err.Error(), nil)
 	} else {
